@@ -89,10 +89,12 @@ func (this *Hnsw) Insert(id uuid.UUID, value math.Vector, metadata Metadata, ver
 			return err
 		}
 		if atomic.CompareAndSwapPointer(&this.entrypoint, nil, unsafe.Pointer(vertex)) {
+			// The vertex may have been removed concurrently
+			this.repairEntrypoint()
 			return nil
-		} else {
-			vertex.setLevel(vertexLevel)
 		}
+		// Another insert won. The vertex is already published (at level 0),
+		// its edge sets and mutexes must not be replaced anymore.
 	} else {
 		vertex = newHnswVertex(id, value, metadata, vertexLevel)
 		if err := this.storeVertex(vertex); err != nil {
@@ -101,6 +103,14 @@ func (this *Hnsw) Insert(id uuid.UUID, value math.Vector, metadata Metadata, ver
 	}
 
 	entrypoint := (*hnswVertex)(atomic.LoadPointer(&this.entrypoint))
+	if entrypoint == nil {
+		// The index has been emptied by concurrent removals in the meantime
+		this.repairEntrypoint()
+		entrypoint = (*hnswVertex)(atomic.LoadPointer(&this.entrypoint))
+		if entrypoint == nil || entrypoint == vertex {
+			return nil
+		}
+	}
 	minDistance := this.space.Distance(vertex.vector, entrypoint.vector)
 	for l := entrypoint.level; l > vertex.level; l-- {
 		entrypoint, minDistance = this.greedyClosestNeighbor(vertex.vector, entrypoint, minDistance, l)
@@ -137,8 +147,10 @@ func (this *Hnsw) Insert(id uuid.UUID, value math.Vector, metadata Metadata, ver
 
 	entrypoint = (*hnswVertex)(atomic.LoadPointer(&this.entrypoint))
 	if entrypoint != nil && vertex.level > entrypoint.level {
-		atomic.CompareAndSwapPointer(&this.entrypoint, this.entrypoint, unsafe.Pointer(vertex))
+		atomic.CompareAndSwapPointer(&this.entrypoint, unsafe.Pointer(entrypoint), unsafe.Pointer(vertex))
 	}
+	// Concurrent removals may have taken the entrypoint (or this vertex) away
+	this.repairEntrypoint()
 
 	return nil
 }
@@ -171,35 +183,7 @@ func (this *Hnsw) Remove(id uuid.UUID) error {
 		return err
 	}
 
-	currEntrypoint := atomic.LoadPointer(&this.entrypoint)
-	if (*hnswVertex)(currEntrypoint) == vertex {
-		minDistance := math.MaxFloat
-		var closestNeighbor *hnswVertex = nil
-
-		for l := vertex.level; l >= 0; l-- {
-			vertex.edgeMutexes[l].RLock()
-			for neighbor, distance := range vertex.edges[l] {
-				if neighbor.isDeleted() {
-					continue
-				}
-				if distance < minDistance {
-					minDistance = distance
-					closestNeighbor = neighbor
-				}
-			}
-			vertex.edgeMutexes[l].RUnlock()
-
-			if closestNeighbor != nil {
-				break
-			}
-		}
-		if closestNeighbor == nil {
-			// No live neighbor to hand over to. Fall back to any remaining vertex
-			// so that the index does not lose its entrypoint while it holds items.
-			closestNeighbor = this.anyLiveVertex()
-		}
-		atomic.CompareAndSwapPointer(&this.entrypoint, currEntrypoint, unsafe.Pointer(closestNeighbor))
-	}
+	this.repairEntrypoint()
 
 	for l := vertex.level; l >= 0; l-- {
 		mMax := this.config.mMax
@@ -296,6 +280,54 @@ func (this *Hnsw) removeVertex(id uuid.UUID) (*hnswVertex, error) {
 	}
 
 	return nil, ItemNotFoundError
+}
+
+// Hands the entrypoint over to a stored vertex if the current one has been removed
+// (or if there is none although the index holds items). Prefers the closest
+// neighbor of the removed entrypoint. Safe to call concurrently with inserts and removals:
+// a vertex is flagged as deleted before its removal checks the entrypoint, so either the
+// removal or the caller that installed the vertex as the entrypoint notices.
+func (this *Hnsw) repairEntrypoint() {
+	for {
+		currEntrypoint := atomic.LoadPointer(&this.entrypoint)
+		entrypoint := (*hnswVertex)(currEntrypoint)
+		if entrypoint != nil && !entrypoint.isDeleted() {
+			return
+		}
+
+		var replacement *hnswVertex
+		if entrypoint != nil {
+			minDistance := math.MaxFloat
+			for l := entrypoint.level; l >= 0; l-- {
+				entrypoint.edgeMutexes[l].RLock()
+				for neighbor, distance := range entrypoint.edges[l] {
+					if neighbor.isDeleted() {
+						continue
+					}
+					if distance < minDistance {
+						minDistance = distance
+						replacement = neighbor
+					}
+				}
+				entrypoint.edgeMutexes[l].RUnlock()
+
+				if replacement != nil {
+					break
+				}
+			}
+		}
+		if replacement == nil {
+			// No live neighbor to hand over to. Fall back to any remaining vertex
+			// so that the index does not lose its entrypoint while it holds items.
+			replacement = this.anyLiveVertex()
+		}
+		if replacement == nil && entrypoint == nil {
+			return
+		}
+		if atomic.CompareAndSwapPointer(&this.entrypoint, currEntrypoint, unsafe.Pointer(replacement)) && replacement == nil {
+			return
+		}
+	}
 }
 
 // Returns a stored (not deleted) vertex with the highest level or nil if the index is empty.
